@@ -663,10 +663,23 @@ def run_impl(c):
         if isinstance(wf, dict):
             return wf
         amps = np.asarray(wf.amplitudes).reshape(-1)
-        return {"n": len(wf), "support": [int(i) for i in np.nonzero(amps)[0]],
-                "probs_support": [float(abs(amps[i]) ** 2) for i in np.nonzero(amps)[0]],
-                "probs_api": [float(x) for x in np.asarray(wf.get_probabilities()).reshape(-1)[np.nonzero(amps)[0]]],
-                "total": float(np.sum(np.abs(amps) ** 2))}
+        res = {"n": len(wf), "support": [int(i) for i in np.nonzero(amps)[0]],
+               "probs_support": [float(abs(amps[i]) ** 2) for i in np.nonzero(amps)[0]],
+               "probs_api": [float(x) for x in np.asarray(wf.get_probabilities()).reshape(-1)[np.nonzero(amps)[0]]],
+               "total": float(np.sum(np.abs(amps) ** 2))}
+        # history: an accepted, norm-preserving assignment on the returned state, then the same constructor call
+        # again – the constructor must still give the Dicke state (results are values, not a shared object)
+        if len(wf) >= 2:
+            try:
+                rolled = np.roll(amps.copy(), 1)
+                wf[:] = rolled
+                again = _with_timeout(build)
+                if not isinstance(again, dict):
+                    a2 = np.asarray(again.amplitudes).reshape(-1)
+                    res["again_support"] = [int(i) for i in np.nonzero(a2)[0]]
+            except Exception as e:  # noqa: BLE001 – recorded, judged by the oracle
+                res["again_error"] = repr(e)[:100]
+        return res
     if k == "gosper":
         nxt = W._get_next_number_with_same_hamming_weight(c["v"])
         return {"next": int(nxt), "msb": int(W._most_significant_set_bit(int(nxt))), "lowbit": c["v"] & -c["v"]}
@@ -999,6 +1012,9 @@ def oracle(c, out):
                 return ("dicke-probability", f"dicke_state({n},{kk}): probabilities {lst[:4]} differ from 1/C(n,k) = {p}")
         if abs(out["total"] - 1) > 1e-9:
             return ("dicke-probability", f"dicke_state({n},{kk}): total probability {out['total']}")
+        if "again_support" in out and out["again_support"] != want:
+            return ("dicke-shared-state", f"dicke_state({n},{kk}) called again after an accepted assignment on the first "
+                                          f"result has support {out['again_support'][:6]}, expected {want[:6]}")
         return None
     if k == "gosper":
         v = c["v"]
